@@ -449,6 +449,7 @@ esl_histogram_SetTail(ESL_HISTOGRAM *h, double phi, double *ret_newmass)
   h->z    = 0;
   for (b = h->imin; b < h->cmin && b <= h->imax; b++)  /* cmin may lie beyond the allocated bins when phi > bmax */
     h->z += h->obs[b];
+  if (h->cmin < 0) h->cmin = 0;	/* phi at or below bmin: every existing bin is in the tail; bins < 0 don't exist, and callers index obs[cmin..imax] */
   h->Nc         = h->n;		/* (redundant) */
   h->No         = h->n - h->z;
   h->dataset_is = VIRTUAL_CENSORED;
@@ -498,7 +499,7 @@ esl_histogram_SetTailByMass(ESL_HISTOGRAM *h, double pmass, double *ret_newmass)
 
   h->phi         = esl_histogram_Bin2LBound(h,b);
   h->z           = h->n - sum;
-  h->cmin        = b;
+  h->cmin        = (b < 0 ? 0 : b);	/* b = -1 when no bin satisfied the request (empty histogram, pmass > 1): bins < 0 don't exist */
   h->Nc          = h->n;	/* (redundant) */
   h->No          = h->n - h->z;
   h->dataset_is  = VIRTUAL_CENSORED;
